@@ -404,13 +404,13 @@ func (s *Syncer) handleRPC(id types.Specifier, stream *gateway.Stream, origin *P
 			return nil
 		}
 		bid := r.Block.ID(cs)
-		if _, ok := s.cm.State(bid); ok {
-			return nil // already seen
-		} else if r.Block.ParentID != s.cm.Tip().ID {
+		if r.Block.ParentID != s.cm.Tip().ID {
 			// NOTE: the outline's ID commits to the parent state; for a parent
 			// that was stored but never applied we only hold a header-derived
 			// state, so the ID (and therefore its work) cannot be judged here.
-			//
+			if _, ok := s.cm.State(bid); ok {
+				return nil // already seen
+			}
 			// block extends a sidechain, which peer (if honest) believes to be the
 			// heaviest chain
 			s.resync(origin, "peer relayed a v2 outline that does not attach to our tip")
@@ -418,6 +418,9 @@ func (s *Syncer) handleRPC(id types.Specifier, stream *gateway.Stream, origin *P
 		} else if bid.CmpWork(cs.PoWTarget()) < 0 {
 			return s.ban(origin, errors.New("peer sent v2 outline with insufficient work"))
 		}
+		// NOTE: a block that attaches to our tip is processed even if its ID is
+		// already known: a previous copy with this ID may have had another
+		// (invalid) body.
 		log.Debug("received v2 block outline", zap.Stringer("blockID", bid), zap.Stringer("origin", origin))
 		// block has sufficient work and attaches to our tip, but may be missing
 		// transactions; first, check for them in our txpool; then, if block is
